@@ -1,6 +1,6 @@
 (** Layer R proofs: facts about actor cells, queued calls and pending notifier invocations that the call
     monitors (C02, C06 calls conjunct) rest on; no monitor state here.  [step_KI]: preserved by every step. *)
-From Coq Require Import ZArith NArith List Bool Lia.
+From Coq Require Import ZArith NArith List Bool Lia Permutation.
 From Stk Require Import Lib.U Gen.SrcCount Gen.SrcCore Gen.SrcLog R.Syntax R.Rt R.Mon R.Shape R.Eff R.Tags R.Drops R.Mono R.Count R.Nest R.C20Proofs R.Calls.
 Import ListNotations.
 Local Open Scope Z_scope.
@@ -35,7 +35,8 @@ Definition mok (s : st) (m : mop) : Prop :=
 
 Record KS (s : st) : Prop := mkKS {
   ks_act : forall a x, aget (actors s) a = Some x -> aok a x;
-  ks_main : Forall subok (mainq s) }.
+  ks_main : Forall subok (mainq s);
+  ks_keys : NoDup (map fst (actors s)) }.
 
 Definition KI (k : list mop) (s : st) : Prop := KS s /\ Forall (mok s) k.
 
@@ -98,11 +99,42 @@ Qed.
 Lemma aok_logid a st strong rc nt id id' fr : aok a (mkActor st strong rc nt id fr) -> aok a (mkActor st strong rc nt id' fr).
 Proof. intros H. exact H. Qed.
 
+Lemma aset_keys {X} (l : list (N * X)) a x :
+  map fst (aset l a x) = match aget l a with Some _ => map fst l | None => map fst l ++ [a] end.
+Proof.
+  induction l as [|[b y] r IH]; simpl; auto. destruct (N.eqb a b) eqn:E; simpl.
+  - apply N.eqb_eq in E. subst. reflexivity.
+  - rewrite IH. destruct (aget r a); reflexivity.
+Qed.
+
+Lemma aget_none_keys {X} (l : list (N * X)) a : aget l a = None -> ~ In a (map fst l).
+Proof.
+  induction l as [|[b y] r IH]; simpl; auto. destruct (N.eqb a b) eqn:E; [discriminate|].
+  intros H [Q|Q]; [subst; rewrite N.eqb_refl in E; discriminate | apply IH; auto].
+Qed.
+
+Lemma aset_nodup {X} (l : list (N * X)) a x : NoDup (map fst l) -> NoDup (map fst (aset l a x)).
+Proof.
+  intros H. rewrite aset_keys. destruct (aget l a) eqn:E; auto.
+  eapply Permutation_NoDup; [apply Permutation_cons_append|]. constructor; auto. apply aget_none_keys; auto.
+Qed.
+
+Lemma aget_in {X} (l : list (N * X)) a x : NoDup (map fst l) -> In (a, x) l -> aget l a = Some x.
+Proof.
+  induction l as [|[b y] r IH]; simpl; [contradiction|]. intros N [Q|Q].
+  - inversion Q; subst. rewrite N.eqb_refl. reflexivity.
+  - inversion N; subst. destruct (N.eqb a b) eqn:E.
+    + apply N.eqb_eq in E. subst. exfalso. apply H1. apply in_map_iff. exists (b, x). auto.
+    + apply IH; auto.
+Qed.
+
 Lemma KS_upd s a x : KS s -> aok a x -> KS (upd_actor s a x).
 Proof.
-  intros [A M] X. constructor; auto. unfold upd_actor; simpl. intros b y. destruct (N.eq_dec a b) as [<-|NE].
-  - rewrite aget_aset_eq. intros E; inversion E; subst; auto.
-  - rewrite aget_aset_neq by auto. apply A.
+  intros [A M KK] X. constructor; auto.
+  - unfold upd_actor; simpl. intros b y. destruct (N.eq_dec a b) as [<-|NE].
+    + rewrite aget_aset_eq. intros E; inversion E; subst; auto.
+    + rewrite aget_aset_neq by auto. apply A.
+  - unfold upd_actor; simpl. apply aset_nodup; auto.
 Qed.
 
 Lemma aok_same_view a x y : aok a y -> same_view x y -> aok a x.
@@ -122,23 +154,23 @@ Proof. destruct ci as [u i k caps q0]. unfold ci_call, subok. simpl. destruct k;
 Lemma keff_KS s s1 : keff s s1 -> KS s -> KS s1.
 Proof.
   intros E. induction E; intros K; auto.
-  - specialize (IHE K). destruct IHE as [A M]. constructor; auto.
-  - specialize (IHE K). destruct IHE as [A M]. destruct H as (_ & HM & HA). constructor; [rewrite HA; auto | rewrite HM; auto].
+  - specialize (IHE K). destruct IHE as [A M KK]. constructor; auto.
+  - specialize (IHE K). destruct IHE as [A M KK]. destruct H as (_ & HM & HA). constructor; [rewrite HA; auto | rewrite HM; auto | rewrite HA; auto].
   - specialize (IHE K). apply KS_upd; auto. eapply aok_same_view; eauto. apply (ks_act _ IHE _ _ H).
   - specialize (IHE K). unfold new_actor.
     set (s2 := log_rec (set_logseq s1 (oz (log_id_next (logseq s1)))) (oz (log_id_next (logseq s1))) LOGLEVEL_OPEN parent 0).
     assert (K2 : KS s2).
-    { destruct IHE as [A M]. unfold s2, log_rec. destruct (_ && _); constructor; auto. }
+    { destruct IHE as [A M KK]. unfold s2, log_rec. destruct (_ && _); constructor; auto. }
     assert (K3 : KS (emit (upd_actor s2 a (mkActor (SPrep []) (oz (count_inc (oz count_new))) MINRC_INIT (Some nt) (oz (log_id_next (logseq s1))) false)) (EActor a))).
     { assert (K4 : KS (upd_actor s2 a (mkActor (SPrep []) (oz (count_inc (oz count_new))) MINRC_INIT (Some nt) (oz (log_id_next (logseq s1))) false))).
       { apply KS_upd; auto. eapply aok_logid. apply aok_new; auto. }
-      destruct K4 as [A M]. constructor; auto. }
-    destruct vis; auto. destruct K3 as [A M]. constructor; auto.
-  - specialize (IHE K). destruct IHE as [A M]. constructor; auto. unfold submit, push_main. simpl.
+      destruct K4 as [A M KK]. constructor; auto. }
+    destruct vis; auto. destruct K3 as [A M KK]. constructor; auto.
+  - specialize (IHE K). destruct IHE as [A M KK]. constructor; auto. unfold submit, push_main. simpl.
     apply Forall_app. split; auto. constructor; [|constructor]. apply subok_setq_call; auto.
-  - specialize (IHE K). destruct IHE as [A M]. unfold submit. destruct q; constructor; auto.
+  - specialize (IHE K). destruct IHE as [A M KK]. unfold submit. destruct q; constructor; auto.
     unfold push_main. simpl. apply Forall_app. split; auto. constructor; [|constructor]. apply subok_setq_plain; auto.
-  - specialize (IHE K). destruct IHE as [A M]. constructor; auto. unfold push_main. simpl.
+  - specialize (IHE K). destruct IHE as [A M KK]. constructor; auto. unfold push_main. simpl.
     apply Forall_app. split; auto. constructor; [|constructor]. unfold subok. simpl. destruct k; simpl in *; auto; contradiction.
 Qed.
 
@@ -166,7 +198,7 @@ Proof.
 Qed.
 
 Lemma KS_same s s' : KS s -> actors s' = actors s -> mainq s' = mainq s -> KS s'.
-Proof. intros [A M] E1 E2. constructor; [rewrite E1; auto | rewrite E2; auto]. Qed.
+Proof. intros [A M KK] E1 E2. constructor; [rewrite E1; auto | rewrite E2; auto | rewrite E1; auto]. Qed.
 
 Lemma aok_zombie_cell a x v rc fr : aok a x -> aok a (mkActor SZombie (oz (count_set_state (a_strong x) STATE_ZOMBIE)) rc None v fr).
 Proof.
@@ -319,16 +351,16 @@ Proof.
     rename m into m0. unfold ret_invoke in E. destruct r as [rid rk]. destruct rk.
     + inversion E; subst. apply FIN; [eapply KS_same; eauto | apply zmono_same; reflexivity | repeat constructor].
     + inversion E; subst. apply FIN; [|apply zmono_same; reflexivity | constructor].
-      destruct K as [A MQ]. constructor; auto. unfold submit, push_main; simpl. apply Forall_app. split; auto.
+      destruct K as [A MQ KK]. constructor; auto. unfold submit, push_main; simpl. apply Forall_app. split; auto.
       constructor; [apply subok_as_call | constructor].
     + destruct m0 as [mm|]; inversion E; subst.
       * apply FIN; [|apply zmono_same; reflexivity | constructor].
-        destruct K as [A MQ]. constructor; auto. unfold submit, push_main; simpl. apply Forall_app. split; auto.
+        destruct K as [A MQ KK]. constructor; auto. unfold submit, push_main; simpl. apply Forall_app. split; auto.
         constructor; [apply subok_as_call | constructor].
       * apply FIN; [eapply KS_same; eauto | apply zmono_same; reflexivity | repeat constructor].
     + destruct inner as [[p ci]|]; inversion E; subst.
       * apply FIN; [|apply zmono_same; reflexivity | constructor].
-        destruct K as [A MQ]. constructor; auto. unfold submit, push_main; simpl. apply Forall_app. split; auto.
+        destruct K as [A MQ KK]. constructor; auto. unfold submit, push_main; simpl. apply Forall_app. split; auto.
         constructor; [apply subok_as_call | constructor].
       * apply FIN; [eapply KS_same; eauto | apply zmono_same; reflexivity | constructor].
     + assert (KR : keff s (push_main (ref_clone s p) (CI 0 0 (KSlabRm p key) [] None))) by (apply ke_push_internal; [apply ke_ref_clone, ke_refl | exact I]).
@@ -377,7 +409,7 @@ Proof.
     + inversion E; subst. apply FIN; [eapply KS_same; eauto | apply zmono_same; reflexivity | constructor].
   - (* MNew *)
     inversion E; subst. apply FIN.
-    + destruct K as [A MQ]. constructor; auto. simpl. constructor.
+    + destruct K as [A MQ KK]. constructor; auto. simpl. constructor.
     + apply zmono_same. reflexivity.
     + destruct (dk s); [|constructor]. apply subok_drop_mok. apply (ks_main _ K).
   - (* MRunIdle *)
@@ -395,13 +427,13 @@ Proof.
     { intros s2. apply subok_run_mok. apply (ks_main _ K). }
     destruct (t >? now s).
     + inversion E; subst. apply FIN.
-      * destruct K as [A MQ]. constructor; [destruct (ambiguous _); exact A|]. destruct (ambiguous _); simpl; constructor.
+      * destruct K as [A MQ KK]. constructor; [destruct (ambiguous _); exact A | destruct (ambiguous _); simpl; constructor | destruct (ambiguous _); exact KK].
       * apply zmono_same. destruct (ambiguous _); reflexivity.
       * rewrite map_app. apply Forall_app. split; [apply MB|]. apply PL.
         pose proof (qt_timers _ T) as TT. apply Forall_forall. intros c Hc. apply in_map_iff in Hc as (y & <- & Hy).
         apply ti_sort_in in Hy. apply filter_In in Hy as [Hy _]. eapply Forall_forall in TT; [exact TT|]. apply in_map. exact Hy.
     + inversion E; subst. apply FIN; [|apply zmono_same; reflexivity | apply MB].
-      destruct K as [A MQ]. constructor; auto. simpl. constructor.
+      destruct K as [A MQ KK]. constructor; auto. simpl. constructor.
   - (* MLoop *)
     destruct (mainq s) as [|c l] eqn:MQE.
     + destruct (lazyq s) as [|c l] eqn:LQ; inversion E; subst.
@@ -411,7 +443,7 @@ Proof.
         apply Forall_app. split; [|repeat constructor].
         pose proof (qt_lazy _ T) as TL. rewrite LQ in TL. apply subok_run_mok. eapply tagged_subok; eauto.
     + inversion E; subst. apply FIN; [|apply zmono_same; reflexivity|].
-      * destruct K as [A MQ]. constructor; auto. simpl. constructor.
+      * destruct K as [A MQ KK]. constructor; auto. simpl. constructor.
       * change (MRunItem c :: map MRunItem l ++ [MLoop t]) with (map MRunItem (c :: l) ++ [MLoop t]).
         apply Forall_app. split; [|repeat constructor].
         pose proof (ks_main _ K) as MQ. rewrite MQE in MQ. apply subok_run_mok; auto.
@@ -421,7 +453,7 @@ Proof.
     + destruct (mainq s) as [|c l] eqn:MQE; inversion E; subst.
       * (apply FIN; [exact K | apply zmono_refl | repeat constructor]).
       * apply FIN; [|apply zmono_same; reflexivity|].
-        -- destruct K as [A MQ]. constructor; auto. simpl. constructor.
+        -- destruct K as [A MQ KK]. constructor; auto. simpl. constructor.
         -- change (MDropItem c :: map MDropItem l ++ [MDrain (i + 1)]) with (map MDropItem (c :: l) ++ [MDrain (i + 1)]).
            apply Forall_app. split; [|repeat constructor].
            pose proof (ks_main _ K) as MQ. rewrite MQE in MQ. apply subok_drop_mok; auto.
@@ -460,6 +492,6 @@ Qed.
 Lemma KI_init d p : KI (map MTop p ++ [MEpilogue]) (init d).
 Proof.
   split.
-  - constructor; simpl; [intros a x E; discriminate E | constructor].
+  - constructor; simpl; [intros a x E; discriminate E | constructor | constructor].
   - apply Forall_app. split; [|repeat constructor]. induction p; simpl; constructor; auto. exact I.
 Qed.
